@@ -22,9 +22,11 @@ ENV = dict(os.environ)
 ENV.update({"CARGO_NET_OFFLINE": "true", "CARGO_TERM_COLOR": "never"})
 
 FORBIDDEN = re.compile(
-    r"\b(Admitted|admit|Axiom|Axioms|Parameter|Parameters|Conjecture|Conjectures|Hypothesis|Variable|Variables)\b"
+    r"\b(Admitted|admit|Axiom|Axioms|Parameter|Parameters|Conjecture|Conjectures)\b"
     r"|Unset\s+Guard|bypass_check|type-in-type|impredicative-set|Admit\s+Obligations|Unset\s+Positivity|Unset\s+Universe"
 )
+# allowed only inside a Section (they are discharged when the section closes)
+SECTION_ONLY = re.compile(r"^\s*(Hypothesis|Hypotheses|Variable|Variables|Context)\b")
 
 
 class Lock:
@@ -127,10 +129,17 @@ def forbidden_scan():
                 i += 1
         text = "".join(out)
         # Section-local Variable/Hypothesis are allowed only inside a Section: we use none at all.
+        depth = 0
         for n, line in enumerate(text.split("\n"), 1):
+            if re.match(r"^\s*Section\s+\w+\s*\.", line):
+                depth += 1
+            elif re.match(r"^\s*End\s+\w+\s*\.", line):
+                depth = max(0, depth - 1)
             m = FORBIDDEN.search(line)
             if m:
                 hits.append("%s:%d: %s" % (rel, n, line.strip()))
+            elif depth == 0 and SECTION_ONLY.search(line):
+                hits.append("%s:%d: outside a section: %s" % (rel, n, line.strip()))
     return hits
 
 
